@@ -80,3 +80,33 @@ def address_taken_in_tables(tu, name):
         if name in cx.refs(v):
             out.append(vname)
     return out
+
+
+def flag_facts(g, facts, lhs_text):
+    """{mask: label} for dominating facts of the form `<lhs_text> & <constant mask>` (mask folded)"""
+    from . import absint
+    out = {}
+    it = absint.Interp(g, {})
+    for cn, lab in facts:
+        if cn.kind != 'cond':
+            continue
+        e = cx.strip(cn.ast)
+        if e.get('kind') == 'BinaryOperator' and e.get('opcode') == '&':
+            a, b = cx.kids(e)
+            if cx.render(a) == lhs_text:
+                v = it.ev(b, {})
+                if isinstance(v, absint.Con):
+                    out[v.v] = lab
+    return out
+
+
+def macro_flags(tu, prefix):
+    """integer values of object-like macros with the given prefix"""
+    out = {}
+    for k, v in tu.macros.items():
+        if k.startswith(prefix) and v[0] is None:
+            try:
+                out[k] = int(v[1].split('/*')[0].strip().rstrip('UuLl'), 0)
+            except ValueError:
+                pass
+    return out
